@@ -15,10 +15,11 @@ import Driver.Handlers.Living
 import Driver.Handlers.Html
 import Driver.Handlers.Query
 import Driver.Handlers.MergeGraph
+import Driver.Handlers.Cache
 namespace Driver
 
 def handlers : List (String → List String → Option String) :=
-  [handleDates, handleSimilarity, handleMatch, handleDateParse, handleDecoder, handleResolve, handleWarnings, handleEqual, handleLiving, handleHtml, handleQuery, handleMergeGraph]
+  [handleDates, handleSimilarity, handleMatch, handleDateParse, handleDecoder, handleResolve, handleWarnings, handleEqual, handleLiving, handleHtml, handleQuery, handleMergeGraph, handleCache]
 
 def respond (line : String) : String :=
   match line.splitOn " " with
